@@ -25,6 +25,10 @@ import GrinVerif.Model.DecSer
     codec peer <ver> <now> <[ms:frag,…]> => [ev;…;pongs:<n>;closed:<0|1>]   (C19, a real `Peer::accept` after a real
                                           Hand/Shake: Protocol + TrackingAdapter + a recording NetAdapter; events
                                           ping:<height> | getpeeraddrs:<caps> | payload:<t>:<len>)
+    codec hsthen <accept|connect> <ver> <now> <[frag,…]> => [ev;…;pongs:<n>;closed:<0|1>]   (C19, spec: the remote side
+                                          writes its Hand (`accept`) / Shake (`connect`) and further messages in the
+                                          same writes; real `Peer::accept` / `Peer::connect`; every message behind the
+                                          handshake message is delivered exactly once, in order)
     codec rmsgv <hand|shake|peeraddrs> <[frag,…]> => ok <canon> | err <E>   (C19, `msg::read_message` on a fragmented
                                           TCP stream: the value read, re-serialised)
     codec ring new                       => ok            (C19, ONE long-lived real `Handshake`)
@@ -411,6 +415,9 @@ def runEventsP (env : Env DBT DH) : Nat → Codec DH → TStream → Nat → Lis
       | .body _ (.getPeerAddrs caps) => s!"getpeeraddrs:{caps}" :: runEventsP env fuel o.codec o.sock pongs
       | .body t (.payload raw) => s!"payload:{t}:{raw.length}" :: runEventsP env fuel o.codec o.sock pongs
       | .body t _ => s!"other:{t}" :: runEventsP env fuel o.codec o.sock pongs
+      | .headers hs _ =>
+        s!"headers:{hs.length}:{toHex (hs.map (encBlockHeader GV.Gen.AUTOMATED_TESTING_PROOF_SIZE .full)).flatten}" ::
+          runEventsP env fuel o.codec o.sock pongs
       | _ => runEventsP env fuel o.codec o.sock pongs
     | .err e =>
       match tryBreak (B := DBT) (H := DH) (.err e) with
@@ -481,6 +488,25 @@ def handle (st : St) (args : List String) (impl : String) : St × Verdict :=
     | some ver, some now, some sc =>
       let evs := runEventsP (drvEnvP ver now) 1000000 Codec.new (tagSched sc) 0
       (st, cmpModel s!"[{";".intercalate evs}]" impl)
+    | _, _, _ => (st, .unknown)
+  | ["hsthen", dir, ver, now, frags] =>
+    match nat? ver, now.toInt?, parseHexList frags with
+    | some ver, some now, some fr =>
+      let bs := fr.flatten
+      -- `read_message` of the handshake takes exactly the 11 header bytes and the announced body off the socket
+      let consumed : Option Nat := match dir with
+        | "accept" =>
+          let o := readMessage netAutomatedTesting GV.Gen.Msg.T_Hand (decHand .bin) bs
+          (match o.res with | .ok _ => some o.consumed | .error _ => none)
+        | "connect" =>
+          let o := readMessage netAutomatedTesting GV.Gen.Msg.T_Shake (decShake .bin) bs
+          (match o.res with | .ok _ => some o.consumed | .error _ => none)
+        | _ => none
+      match consumed with
+      | some k =>
+        let evs := runEventsP (drvEnvP ver now) 1000000 Codec.new (tagSched [(0, bs.drop k)]) 0
+        (st, cmpSpec s!"[{";".intercalate evs}]" impl)
+      | none => (st, cmpSpec "[handshake-failed]" impl)
     | _, _, _ => (st, .unknown)
   | ["rmsgv", kind, frags] =>
     match parseHexList frags with
